@@ -1008,3 +1008,399 @@ def inline_methods(fn: ast.AST, methods: dict[str, ast.AST], exclude: t.Collecti
         for ch in ast.iter_child_nodes(n):
             ch._parent = n  # type: ignore[attr-defined]
     return new_fn, inlined
+
+
+# ---------------------------------------------------------------------
+# R19.5: the premise of the exactness argument - the request stream is a buffered reader over a blocking socket
+#
+# socketserver.StreamRequestHandler.setup() (trusted stdlib semantics) does
+#     self.connection = self.request
+#     if self.timeout is not None: self.connection.settimeout(self.timeout)
+#     self.rfile = self.connection.makefile('rb', self.rbufsize)        # class default rbufsize = -1
+# and socket.makefile('rb', k) returns the raw socket.SocketIO for k == 0 and io.BufferedReader for every other k
+# (None / negative: default size).  Only the BufferedReader over a blocking socket has `read(n)` returning fewer than
+# n bytes at end of stream only.  The names `rbufsize`, `timeout`, `rfile`, `makefile`, `setblocking`, `settimeout`
+# are stdlib API (roles, not spellings of this code base).
+
+STREAM_HANDLER_BASES = {
+    "socketserver.StreamRequestHandler",
+    "http.server.BaseHTTPRequestHandler",
+    "http.server.SimpleHTTPRequestHandler",
+    "http.server.CGIHTTPRequestHandler",
+}
+# stdlib constants that may be named as a buffer size (only sign / zero-ness matters)
+STDLIB_NUMBERS = {"io.DEFAULT_BUFFER_SIZE": 8192, "_io.DEFAULT_BUFFER_SIZE": 8192, "_pyio.DEFAULT_BUFFER_SIZE": 8192}
+BUFFERED_CTORS = {"io.BufferedReader", "io.BufferedRandom", "io.BufferedRWPair", "io.BytesIO", "_io.BufferedReader", "_io.BufferedRandom", "_io.BufferedRWPair", "_io.BytesIO"}
+RAW_CTORS = {"socket.SocketIO", "io.FileIO", "_io.FileIO"}
+OPENERS = {"builtins.open", "io.open", "_io.open", "os.fdopen"}
+
+
+class _Site(t.NamedTuple):
+    attr: str
+    value: ast.AST | None  # None: the bound value is not an expression of the statement (tuple target, for target, ...)
+    stmt: ast.AST
+    module: t.Any
+    func: ast.AST | None  # innermost enclosing function
+    cls: ast.ClassDef | None
+    how: str  # "class attribute" | "attribute store" | "setattr" | "namespace entry" | "keyword"
+    on_self: bool
+
+
+def _scoped(tree: ast.AST) -> t.Iterator[tuple[ast.AST, ast.AST | None, ast.ClassDef | None, str | None]]:
+    """(node, innermost enclosing function, enclosing class, name of `self` there) for every node of a module."""
+
+    def rec(n: ast.AST, func: ast.AST | None, cls: ast.ClassDef | None, selfname: str | None) -> t.Iterator:
+        for ch in ast.iter_child_nodes(n):
+            yield ch, func, cls, selfname
+            if isinstance(ch, ast.ClassDef):
+                yield from rec(ch, None, ch, None)
+            elif isinstance(ch, (ast.FunctionDef, ast.AsyncFunctionDef)):
+                sn = selfname
+                if func is None and cls is not None:  # a method: its first parameter is the instance
+                    static = any((dotted(d) or "").rsplit(".", 1)[-1] in ("staticmethod", "classmethod") for d in ch.decorator_list)
+                    sn = ch.args.args[0].arg if ch.args.args and not static else None
+                yield from rec(ch, ch, cls, sn)
+            else:
+                yield from rec(ch, func, cls, selfname)
+
+    yield from rec(tree, None, None, None)
+
+
+def _class_body(node: ast.ClassDef) -> t.Iterator[ast.stmt]:
+    """statements executed in the class body (both arms of conditionals, try blocks)."""
+
+    def rec(stmts: list[ast.stmt]) -> t.Iterator[ast.stmt]:
+        for st in stmts:
+            yield st
+            if isinstance(st, (ast.If, ast.Try, ast.With, ast.For, ast.While)):
+                for f in ("body", "orelse", "finalbody"):
+                    yield from rec(getattr(st, f, []) or [])
+                for h in getattr(st, "handlers", []) or []:
+                    yield from rec(h.body)
+
+    yield from rec(node.body)
+
+
+class StreamPremise:
+    def __init__(self, ctx: t.Any, handler: t.Any, rule: str):
+        from ..fold import Folder
+
+        self.ctx = ctx
+        self.repo = ctx.repo
+        self.rule = rule
+        self.handler = handler
+        self.folder = Folder(self.repo)
+
+    # -- values ----------------------------------------------------------
+    def _subst_stdlib(self, module: t.Any, e: ast.AST, func: ast.AST | None) -> ast.AST:
+        repo = self.repo
+        li = module.local_imports(func) if func is not None else None
+
+        class T(ast.NodeTransformer):
+            def visit_Attribute(self, n: ast.Attribute) -> ast.AST:  # noqa: N802
+                d = dotted(n)
+                if d:
+                    fq = repo.resolve(module, d, li)
+                    if fq in STDLIB_NUMBERS:
+                        return ast.copy_location(ast.Constant(STDLIB_NUMBERS[fq]), n)
+                return self.generic_visit(n)
+
+            def visit_Name(self, n: ast.Name) -> ast.AST:  # noqa: N802
+                fq = repo.resolve(module, n.id, li) if (n.id in module.imports or (li and n.id in li)) else None
+                if fq in STDLIB_NUMBERS:
+                    return ast.copy_location(ast.Constant(STDLIB_NUMBERS[fq]), n)
+                return n
+
+        return T().visit(clone(e))
+
+    def values(self, module: t.Any, e: ast.AST, env: dict[str, t.Any], func: ast.AST | None, depth: int = 0) -> list[t.Any]:
+        """the values an expression can take, folded from constants (module-level names, class-level names in ``env``,
+        single-assignment locals of ``func``); both arms of a conditional whose test does not fold.  Raises
+        AnalysisError when some possible value is not a constant."""
+        from .. import astq
+
+        e2 = self._subst_stdlib(module, e, func)
+        try:
+            return [self.folder.expr(module, e2, env)]
+        except Exception as exc:  # Unfoldable (an AnalysisError) or a type error inside the folded arithmetic
+            if isinstance(e, ast.IfExp):
+                return self.values(module, e.body, env, func, depth) + self.values(module, e.orelse, env, func, depth)
+            if isinstance(e, ast.BoolOp):
+                out: list[t.Any] = []
+                for v in e.values:
+                    out += self.values(module, v, env, func, depth)
+                return out
+            if func is not None and depth < 3:
+                local = {}
+                for nm in sorted({n.id for n in ast.walk(e) if isinstance(n, ast.Name)} - set(env)):
+                    if nm in module.assigns:
+                        continue
+                    binds = astq.assigns_to(func, nm, nested=True)
+                    if len(binds) == 1 and binds[0][1] is not None and isinstance(binds[0][0], (ast.Assign, ast.AnnAssign)):
+                        vs = self.values(module, binds[0][1], env, func, depth + 1)
+                        if len(vs) == 1:
+                            local[nm] = vs[0]
+                if local:
+                    return self.values(module, e, {**env, **local}, func, depth + 1)
+            raise AnalysisError(f"`{norm(e)}` does not fold to a constant ({exc})") from None
+
+    @staticmethod
+    def zero(v: t.Any) -> bool:
+        return v is not None and isinstance(v, (int, float)) and v == 0
+
+    def stream_kind(self, module: t.Any, e: ast.AST, func: ast.AST | None, depth: int = 0) -> tuple[str | None, str]:
+        """'buffered' / 'raw' / None (cannot be followed) for an expression bound to rfile, with the reason."""
+        from .. import astq
+
+        li = module.local_imports(func) if func is not None else None
+        if isinstance(e, ast.IfExp):
+            a, wa = self.stream_kind(module, e.body, func, depth)
+            b, wb = self.stream_kind(module, e.orelse, func, depth)
+            if "raw" in (a, b):
+                return "raw", wa if a == "raw" else wb
+            return (None, wa if a is None else wb) if None in (a, b) else ("buffered", f"{wa}; {wb}")
+        if isinstance(e, ast.Attribute) and e.attr == "raw":
+            return "raw", f"`{norm(e)}` is the raw stream under a buffered reader"
+        if isinstance(e, ast.Name) and func is not None and depth < 3:
+            binds = astq.assigns_to(func, e.id, nested=True)
+            if len(binds) == 1 and binds[0][1] is not None:
+                return self.stream_kind(module, binds[0][1], func, depth + 1)
+        if isinstance(e, ast.Call):
+            d = dotted(e.func)
+            fq = self.repo.resolve(module, d, li) if d else None
+            if isinstance(e.func, ast.Attribute) and e.func.attr == "detach" and not e.args:
+                return "raw", f"`{norm(e)}` detaches the raw stream"
+            size: ast.AST | None = None
+            sized = False
+            if isinstance(e.func, ast.Attribute) and e.func.attr == "makefile":
+                sized, size = True, astq.arg_or_kw(e, 1, "buffering")
+            elif fq in OPENERS:
+                sized, size = True, astq.arg_or_kw(e, 2, "buffering")
+            if sized:
+                if astq.has_double_star(e) or any(isinstance(a, ast.Starred) for a in e.args):
+                    return None, f"`{norm(e)}`: buffering passed through * / **"
+                if size is None:
+                    return "buffered", f"`{norm(e)}`: default buffering"
+                if isinstance(size, ast.Attribute) and size.attr == "rbufsize":
+                    return "buffered", f"`{norm(e)}`: buffering is the `rbufsize` attribute, decided with its bindings"
+                vs = self.values(module, size, {}, func)
+                if any(self.zero(v) for v in vs):
+                    return "raw", f"`{norm(e)}`: buffering {vs} (0 = unbuffered: the raw SocketIO / FileIO)"
+                return "buffered", f"`{norm(e)}`: buffering {vs}"
+            if fq in BUFFERED_CTORS:
+                return "buffered", f"`{norm(e)}`"
+            if fq in RAW_CTORS:
+                return "raw", f"`{norm(e)}` is a raw stream: read(n) returns what one recv / read system call yields"
+        return None, f"`{norm(e)}` is not a stream constructor this rule knows"
+
+    # -- sites -------------------------------------------------------------
+    def family(self) -> tuple[list[t.Any], list[str]]:
+        mro = self.repo.mro(self.handler)
+        own = [k for k in mro if hasattr(k, "node")]
+        std = [k.fq for k in mro if not hasattr(k, "node")]
+        for k in self.repo.subclasses(self.handler.fq):
+            if k not in own:
+                own.append(k)
+                std += [b.fq for b in self.repo.mro(k) if not hasattr(b, "node") and b.fq not in std]
+        return own, std
+
+    def sites(self, fam_nodes: dict[int, t.Any]) -> list[_Site]:
+        out: list[_Site] = []
+        attrs = ("rbufsize", "rfile", "timeout")
+        # class-level bindings of the family
+        for k in fam_nodes.values():
+            for st in _class_body(k.node):
+                tgs: list[ast.AST] = []
+                val: ast.AST | None = None
+                if isinstance(st, ast.Assign):
+                    tgs, val = list(st.targets), st.value
+                elif isinstance(st, ast.AnnAssign) and st.value is not None:
+                    tgs, val = [st.target], st.value
+                elif isinstance(st, ast.AugAssign):
+                    tgs, val = [st.target], None
+                elif isinstance(st, (ast.For, ast.With)):
+                    tgs = [st.target] if isinstance(st, ast.For) else [i.optional_vars for i in st.items if i.optional_vars is not None]
+                for tg in tgs:
+                    for a in attrs:
+                        if isinstance(tg, ast.Name) and tg.id == a:
+                            out.append(_Site(a, val, st, k.module, None, k.node, "class attribute", False))
+                        elif not isinstance(tg, ast.Name) and any(isinstance(x, ast.Name) and x.id == a for x in ast.walk(tg)):
+                            out.append(_Site(a, None, st, k.module, None, k.node, "class attribute", False))
+        # stores anywhere in the package
+        for m in self.repo.modules.values():
+            if not any(a in m.source for a in ("rbufsize", "rfile")) and not any(k.module is m for k in fam_nodes.values()):
+                continue
+            handled: set[int] = set()
+            for n, func, cls, selfname in _scoped(m.tree):
+                in_family = cls is not None and id(cls) in fam_nodes
+                known_other = cls is not None and not in_family and any(c.node is cls for c in m.classes.values())
+
+                def relevant(obj: ast.AST, attr: str) -> tuple[bool, bool]:
+                    on_self = isinstance(obj, ast.Name) and selfname is not None and obj.id == selfname
+                    if attr == "timeout":
+                        return on_self and in_family, on_self
+                    if on_self and known_other:
+                        return False, on_self  # an attribute of some other class that happens to have the same name
+                    return True, on_self
+
+                if isinstance(n, (ast.Assign, ast.AnnAssign, ast.AugAssign)):
+                    tgs = list(n.targets) if isinstance(n, ast.Assign) else [n.target]
+                    for tg in tgs:
+                        if isinstance(tg, ast.Attribute) and tg.attr in attrs:
+                            handled.add(id(tg))
+                            rel, on_self = relevant(tg.value, tg.attr)
+                            if rel:
+                                val = None if isinstance(n, ast.AugAssign) else n.value
+                                out.append(_Site(tg.attr, val, n, m, func, cls, "attribute store", on_self))
+                elif isinstance(n, ast.Attribute) and n.attr in attrs and isinstance(n.ctx, ast.Store) and id(n) not in handled:
+                    rel, on_self = relevant(n.value, n.attr)
+                    if rel:
+                        out.append(_Site(n.attr, None, n, m, func, cls, "attribute store", on_self))
+                elif isinstance(n, ast.Call) and dotted(n.func) == "setattr" and len(n.args) == 3 and isinstance(n.args[1], ast.Constant) and n.args[1].value in attrs:
+                    handled.add(id(n.args[1]))
+                    rel, on_self = relevant(n.args[0], n.args[1].value)
+                    if rel:
+                        out.append(_Site(n.args[1].value, n.args[2], n, m, func, cls, "setattr", on_self))
+                elif isinstance(n, ast.Call) and dotted(n.func) in ("getattr", "hasattr") and len(n.args) >= 2 and isinstance(n.args[1], ast.Constant):
+                    handled.add(id(n.args[1]))  # a read
+                elif isinstance(n, ast.Dict):
+                    for k_, v_ in zip(n.keys, n.values):
+                        if isinstance(k_, ast.Constant) and k_.value == "rbufsize":
+                            handled.add(id(k_))
+                            out.append(_Site("rbufsize", v_, n, m, func, cls, "namespace entry", False))
+                elif isinstance(n, ast.keyword) and n.arg == "rbufsize":
+                    out.append(_Site("rbufsize", n.value, n, m, func, cls, "keyword", False))
+                elif isinstance(n, ast.Constant) and n.value == "rbufsize" and id(n) not in handled:
+                    raise AnalysisError(f"{m.relpath}:{n.lineno}: the name 'rbufsize' is used as a string in a way this rule cannot follow")
+        return out
+
+    # -- the rule ------------------------------------------------------------
+    def run(self) -> None:
+        from ..cfg import cfg_of
+        from ..loader import FuncInfo
+        from .. import astq
+
+        ctx, rule = self.ctx, self.rule
+        fam, std = self.family()
+        known_std = [b for b in std if b in STREAM_HANDLER_BASES]
+        if not known_std:
+            raise AnalysisError(f"{self.handler.fq}: no stdlib stream request handler among its bases {std} (where rfile comes from is not known)")
+        ctx.floor(rule, "classes of the package in the request handler's hierarchy", len(fam), 1)
+        fam_nodes = {id(k.node): k for k in fam}
+        sites = self.sites(fam_nodes)
+
+        def where_of(s: _Site) -> t.Any:
+            ci = next((c for c in s.module.classes.values() if c.node is s.cls), None) if s.cls is not None else None
+            if s.func is not None:
+                qn = f"{ci.qualname}.{s.func.name}" if ci is not None else s.func.name  # type: ignore[attr-defined]
+                return FuncInfo(s.module, s.func, qn, ci)
+            return ci.fq if ci is not None else s.module.name
+
+        def class_env(s: _Site) -> dict[str, t.Any]:
+            env: dict[str, t.Any] = {}
+            if s.how != "class attribute" or s.cls is None:
+                return env
+            for st in _class_body(s.cls):
+                if st is s.stmt:
+                    break
+                if isinstance(st, ast.Assign) and len(st.targets) == 1 and isinstance(st.targets[0], ast.Name):
+                    try:
+                        vs = self.values(s.module, st.value, dict(env), None)
+                    except AnalysisError:
+                        env.pop(st.targets[0].id, None)
+                        continue
+                    if len(vs) == 1:
+                        env[st.targets[0].id] = vs[0]
+            return env
+
+        def text(s: _Site) -> str:
+            return norm(s.stmt) if not isinstance(s.stmt, ast.Dict) else "{..., 'rbufsize': " + (norm(s.value) if s.value is not None else "?") + "}"
+
+        # (a) buffering requested from setup(): every binding of `rbufsize`
+        per_class: dict[int, list[str]] = {id(k.node): [] for k in fam}
+        per_class_ok: dict[int, bool] = {id(k.node): True for k in fam}
+        n_other = 0
+        for s in sites:
+            if s.attr != "rbufsize":
+                continue
+            if s.value is None:
+                raise AnalysisError(f"{s.module.relpath}:{getattr(s.stmt, 'lineno', '?')}: `{text(s)}` binds rbufsize in a way that is not a plain assignment")
+            vs = self.values(s.module, s.value, class_env(s), s.func)
+            bad = [v for v in vs if self.zero(v)]
+            odd = [v for v in vs if v is not None and not isinstance(v, (int, float))]
+            if odd:
+                raise AnalysisError(f"`{text(s)}`: {odd[0]!r} is not a buffer size")
+            fact = f"{s.how} `{text(s)}` gives {vs}" + ("; 0 makes setup() create rfile as the unbuffered socket.SocketIO, whose read(n) returns what one recv() yields: the de-chunker reports a valid chunk that spans two segments as truncated, and a Content-Length body comes back short" if bad else " (non-zero: makefile returns an io.BufferedReader)")
+            if s.how == "class attribute" and s.cls is not None and id(s.cls) in per_class:
+                per_class[id(s.cls)].append(fact)
+                per_class_ok[id(s.cls)] = per_class_ok[id(s.cls)] and not bad
+            else:
+                n_other += 1
+                ctx.ob(rule, "a buffer size bound to `rbufsize` outside the class bodies is not 0 either", not bad, fact, where_of(s), s.stmt, f"rbufsize {s.how} {text(s)}")
+        for k in fam:
+            ctx.ob(rule, f"{k.name} does not ask StreamRequestHandler.setup() for an unbuffered rfile (rbufsize is not 0)", per_class_ok[id(k.node)],
+                   "; ".join(per_class[id(k.node)]) or f"{k.name} does not bind rbufsize (inherited; the stdlib default is -1 = buffered)", k.fq, None, f"rbufsize of {k.name}")
+
+        # (b) rfile is what setup() made: every rebinding
+        n_rfile = 0
+        for s in sites:
+            if s.attr != "rfile":
+                continue
+            n_rfile += 1
+            if s.value is None:
+                raise AnalysisError(f"{s.module.relpath}:{getattr(s.stmt, 'lineno', '?')}: `{text(s)}` rebinds rfile in a way that is not a plain assignment")
+            kind, why = self.stream_kind(s.module, s.value, s.func)
+            if kind is None:
+                raise AnalysisError(f"{s.module.relpath}:{getattr(s.stmt, 'lineno', '?')}: rfile is rebound by `{text(s)}`: {why}")
+            ctx.ob(rule, "a stream bound to `rfile` is a buffered reader", kind == "buffered", f"{s.how} {why}", where_of(s), s.stmt, f"rfile {s.how} {text(s)}")
+        ctx.ob(rule, "the request stream read by the handler, the application and the de-chunker is the one setup() created, or a buffered reader", True,
+               f"{n_rfile} rebinding(s) of `rfile` in the package, each classified above; {n_other} binding(s) of `rbufsize` outside class bodies" if n_rfile or n_other else "`rfile` is rebound nowhere in the package and `rbufsize` is bound nowhere outside class bodies", self.handler.fq, None, "rfile and rbufsize bindings enumerated")
+
+        # (c) setup overrides still run the stdlib setup (or bind rfile themselves)
+        for k in fam:
+            fi = k.methods.get("setup")
+            if fi is None:
+                continue
+            cfg = cfg_of(fi)
+            through = []
+            for n in cfg.nodes:
+                if n.ast is None or n.kind not in ("stmt", "test"):
+                    continue
+                for x in ast.walk(n.ast):
+                    if isinstance(x, ast.Call) and isinstance(x.func, ast.Attribute) and x.func.attr == "setup":
+                        recv = x.func.value
+                        via_super = isinstance(recv, ast.Call) and dotted(recv.func) == "super"
+                        fq = self.repo.resolve(k.module, dotted(recv) or "", None) if dotted(recv) else None
+                        if via_super or fq in STREAM_HANDLER_BASES or any(fq == c.fq for c in fam):
+                            through.append(n)
+                    if isinstance(x, ast.Attribute) and x.attr == "rfile" and isinstance(x.ctx, ast.Store):
+                        through.append(n)
+            ok = bool(through) and cfg.all_paths_pass(cfg.entry, [cfg.exit], through)
+            if not ok:
+                raise AnalysisError(f"{fi.qualname}: a path through the setup() override neither runs the inherited setup() nor binds rfile (where the request stream comes from is not known)")
+            ctx.ob(rule, "a setup() override runs the inherited setup() (or binds rfile itself) on every path", ok, f"{len(through)} such statement(s), on every path to the normal exit", fi, fi.node, f"setup override of {k.name}")
+
+        # (d) the socket under the reader stays blocking
+        for k in fam:
+            facts, okk = [], True
+            for s in sites:
+                if s.attr == "timeout" and s.cls is k.node:
+                    if s.value is None:
+                        raise AnalysisError(f"{s.module.relpath}:{getattr(s.stmt, 'lineno', '?')}: `{text(s)}` binds timeout in a way that is not a plain assignment")
+                    vs = self.values(s.module, s.value, class_env(s), s.func)
+                    bad = [v for v in vs if self.zero(v)]
+                    okk = okk and not bad
+                    facts.append(f"{s.how} `{text(s)}` gives {vs}" + ("; setup() passes it to settimeout(): 0 puts the connection in non-blocking mode, where a buffered read returns the bytes that happen to be there" if bad else ""))
+            for nm, fi in k.methods.items():
+                for c in astq.calls(fi.node):
+                    if not (isinstance(c.func, ast.Attribute) and c.func.attr in ("setblocking", "settimeout") and len(c.args) + len(c.keywords) == 1):
+                        continue
+                    arg = c.args[0] if c.args else c.keywords[0].value
+                    if is_self_attr(arg, "timeout"):
+                        continue  # what setup() itself does; the attribute is decided above
+                    vs = self.values(k.module, arg, {}, fi.node)
+                    bad = [v for v in vs if (self.zero(v) if c.func.attr == "settimeout" else (not v))]
+                    okk = okk and not bad
+                    facts.append(f"`{norm(c)}` in {nm} with {vs}" + ("; the connection becomes non-blocking" if bad else ""))
+            ctx.ob(rule, f"{k.name} leaves the connection blocking (timeout is not 0, no setblocking(False) / settimeout(0))", okk,
+                   "; ".join(facts) or f"{k.name} neither binds timeout nor calls setblocking / settimeout (the stdlib default is timeout = None)", k.fq, None, f"blocking connection of {k.name}")
